@@ -25,6 +25,7 @@ size_t vcap_size(const void* p); void vcap_check(void); int vcap_live(void);
 #define OP_MEM 5
 #define OP_REM_ABSENT 6
 #define OP_SEQ 7
+#define OP_ALIAS 8
 static var expect_throw = NULL;
 static struct String* thrower;
 static void check_raw(struct String* s);
@@ -73,6 +74,14 @@ V_HARNESS {
   append(s, $S((char*)IN.b)); r_cat(IN.b);
   V_WITNESS("concat+append done");
   check_agrees(s, "concat");
+#elif OP == OP_ALIAS
+  /* the argument is the target itself ("equal in value to the target" at its extreme) */
+  assign(s, s);
+  V_WITNESS("assign(s, s) done");
+  check_agrees(s, "assign to itself");
+  { unsigned char once[RMAX]; for (size_t i = 0; i < RMAX; i++) once[i] = R[i];
+    concat(s, s); r_cat(once);
+    check_agrees(s, "concat with itself"); }
 #elif OP == OP_RESIZE
   size_t n = IN.n; V_ASSUME(n <= SLEN + 2);
   resize(s, n);
